@@ -11,6 +11,7 @@ import (
 	"crypto/x509/pkix"
 	"encoding/pem"
 	"fmt"
+	"io"
 	"math/big"
 	"net"
 	"os"
@@ -41,6 +42,9 @@ type Config struct {
 	RRVS              bool   `json:"rrvs,omitempty"`
 	TLS               string `json:"tls,omitempty"` // "", "starttls", "implicit", "wrapped" (implicit TLS from a listener the caller wrapped; Server.TLSConfig unset)
 	ReadTimeoutMs     int    `json:"read_timeout_ms,omitempty"`
+	WriteTimeoutMs    int    `json:"write_timeout_ms,omitempty"`
+	// Debug: the server copies the protocol exchange to a Debug writer
+	Debug bool `json:"debug,omitempty"`
 }
 
 // LogBuf captures Server.ErrorLog.
@@ -184,6 +188,12 @@ func NewRig(cfg Config, script Script) *Rig {
 	}
 	if cfg.ReadTimeoutMs != 0 {
 		s.ReadTimeout = time.Duration(cfg.ReadTimeoutMs) * time.Millisecond
+	}
+	if cfg.WriteTimeoutMs != 0 {
+		s.WriteTimeout = time.Duration(cfg.WriteTimeoutMs) * time.Millisecond
+	}
+	if cfg.Debug {
+		s.Debug = io.Discard
 	}
 	lg := &LogBuf{}
 	s.ErrorLog = lg
